@@ -1076,6 +1076,9 @@ impl Matcher {
 
         let mut buf = MatchCandidates::new();
         let mut buf_count = 0;
+        #[cfg(corro_verif)]
+        let mut verif_gen =
+            crate::updates::verif_hooks::FLUSH_GEN.load(std::sync::atomic::Ordering::SeqCst);
 
         let mut purge_changes_interval = tokio::time::interval(Duration::from_secs(300));
 
@@ -1118,6 +1121,27 @@ impl Matcher {
                     }
                 },
                 _ = process_changes_deadline.as_mut() => {
+                    #[cfg(corro_verif)]
+                    if crate::updates::verif_hooks::MANUAL.load(std::sync::atomic::Ordering::SeqCst) {
+                        use crate::updates::verif_hooks as vh;
+                        process_changes_deadline
+                            .as_mut()
+                            .reset((Instant::now() + vh::MANUAL_TICK).into());
+                        let flush_gen = vh::FLUSH_GEN.load(std::sync::atomic::Ordering::SeqCst);
+                        if flush_gen == verif_gen {
+                            continue;
+                        }
+                        verif_gen = flush_gen;
+                        buf_count = 0;
+                        if let Err(e) = block_in_place(|| {
+                            self.handle_candidates(&mut state_conn, std::mem::take(&mut buf), false)
+                        }) {
+                            error!(sub_id = %self.id, "could not handle change: {e}");
+                            return;
+                        }
+                        vh::SUBS_FLUSHED.fetch_add(1, std::sync::atomic::Ordering::SeqCst);
+                        continue;
+                    }
                     process_changes_deadline
                         .as_mut()
                         .reset((Instant::now() + PROCESS_BUFFER_DEADLINE).into());
